@@ -16,6 +16,7 @@ import Scico.Proofs.OpAlgStackTree
 import Scico.Proofs.OpAlgStackDt
 import Scico.Proofs.OpAlgFreeze
 import Scico.Proofs.OpAlgRep
+import Scico.Proofs.OpAlgTables
 
 namespace Scico.Props.C12
 open Scico.Shape
@@ -331,6 +332,34 @@ theorem C12_drep_meta (lin : Bool) (o : Obj K) (N : Nat) (ia : Int) (oa : Option
   · cases oa with
     | none => exact h4.2
     | some ax => exact h4
+
+/-- **The declared metadata of the generic derived operators is what the source passes to the constructors.**  With
+    `Tables.model` = the constructor-argument table read from the scico sources (generated obligation
+    `Scico.Generated.OpAlgTables.tables_ok`): the `input_shape / output_shape / input_dtype / output_dtype` expressions
+    of `LinearOperator.__add__/__sub__/__mul__/__truediv__/T` (both returns)`/H/conj/gram_op`, `Operator.__add__/__sub__/
+    __mul__/__rmul__/__truediv__/__call__` and `ComposedLinearOperator.__init__`, interpreted on the operands' metadata
+    (`result_type(·, scalar)` through the scalar's kind), are exactly the metadata the model declares. -/
+theorem C12_metadata_from_source (a b : Obj K) (c : Scal K) (sub : Bool) :
+    Tables.RowGives (Tables.ctorRow Tables.model "linop" (if sub then "__sub__" else "__add__") 0) a.md b.md .wFloat (linAddSub sub a b).md
+    ∧ (∀ o, opAddSub sub a b = .ok o →
+        Tables.RowGives (Tables.ctorRow Tables.model "op" (if sub then "__sub__" else "__add__") 0) a.md b.md .wFloat o.md)
+    ∧ (∀ o, opComp Cfg.fixed a b = .ok o → Tables.RowGives (Tables.ctorRow Tables.model "op" "__call__" 0) a.md b.md .wFloat o.md)
+    ∧ (∀ o, linComp a b = .ok o → Tables.RowGives (Tables.ctorRow Tables.model "composed" "__init__" 0) a.md b.md .wFloat o.md)
+    ∧ (∀ o, linMul a c = .ok o → Tables.RowGives (Tables.ctorRow Tables.model "linop" "__mul__" 0) a.md a.md c.kind.sk o.md)
+    ∧ (∀ o, linDiv a c = .ok o → Tables.RowGives (Tables.ctorRow Tables.model "linop" "__truediv__" 0) a.md a.md c.kind.sk o.md)
+    ∧ (∀ o, opMul a c = .ok o → Tables.RowGives (Tables.ctorRow Tables.model "op" "__mul__" 0) a.md a.md c.kind.sk o.md
+        ∧ Tables.RowGives (Tables.ctorRow Tables.model "op" "__rmul__" 0) a.md a.md c.kind.sk o.md)
+    ∧ (∀ o, opDiv a c = .ok o → Tables.RowGives (Tables.ctorRow Tables.model "op" "__truediv__" 0) a.md a.md c.kind.sk o.md)
+    ∧ Tables.RowGives (Tables.ctorRow Tables.model "linop" "T" 0) a.md a.md .wFloat (linT a).md
+    ∧ Tables.RowGives (Tables.ctorRow Tables.model "linop" "T" 1) a.md a.md .wFloat (linT a).md
+    ∧ Tables.RowGives (Tables.ctorRow Tables.model "linop" "H" 0) a.md a.md .wFloat (linH a).md
+    ∧ Tables.RowGives (Tables.ctorRow Tables.model "linop" "conj" 0) a.md a.md .wFloat (linConj a).md
+    ∧ Tables.RowGives (Tables.ctorRow Tables.model "linop" "gram_op" 0) a.md a.md .wFloat (linGram Cfg.fixed a).md :=
+  ⟨Tables.row_linAddSub sub a b, fun o h => Tables.row_opAddSub sub a b o h, fun o h => Tables.row_opComp a b o h,
+   fun o h => Tables.row_linComp a b o h, fun o h => Tables.row_linMul a o c h, fun o h => Tables.row_linDiv a o c h,
+   fun o h => Tables.row_opMul a o c h, fun o h => Tables.row_opDiv a o c h,
+   (Tables.row_views a).1, (Tables.row_views a).2.1, (Tables.row_views a).2.2.1, (Tables.row_views a).2.2.2.1,
+   (Tables.row_views a).2.2.2.2⟩
 
 /-- `jax.numpy.result_type` on scico's four dtypes is the join of a lattice: commutative,
     associative, idempotent, with `float32` as bottom — so the declared dtype of a sum does not
